@@ -1069,11 +1069,14 @@ class Engine:
             return VBool(ov) if z3.is_expr(ov) else ov
         fn = self.eval(node.func, frame)
         args = []
+        star_seq = None
         for a in node.args:
             if isinstance(a, ast.Starred):
                 v = self.eval(a.value, frame)
                 if isinstance(v, VTup):
                     args.extend(v.items)
+                elif isinstance(v, VSeq) and a is node.args[-1]:
+                    star_seq = v          # f(..., *seq) with a symbolic sequence: bound to the callee's *vararg
                 else:
                     raise Unsupported("call with *symbolic sequence")
             else:
@@ -1091,6 +1094,8 @@ class Engine:
                     raise Unsupported("call with **symbolic mapping")
             else:
                 kwargs[kw.arg] = self.eval(kw.value, frame)
+        if star_seq is not None:
+            kwargs["__star_args__"] = star_seq
         return self.call(fn, args, kwargs, node)
 
     def call(self, fn, args, kwargs, node=None):
